@@ -689,8 +689,18 @@ func faultStream(c *corr.Ctx, s *Spec, p EncParams, nframes int, name string) {
 				}
 			}
 			if hits != 1 {
+				// for the classification of known findings: is the frame at least returned later, and
+				// is there an intact frame after it that could have flushed it?
+				later := "never"
+				for j := limit + 1; j < len(stream); j++ {
+					if outs[j] != nil && r.eq(fs[fi], outs[j]) {
+						later = fmt.Sprintf("at %d", j)
+						break
+					}
+				}
+				nextIntact := fi+1 < len(fs) && intact[fi+1]
 				r.viol("C07", "a frame whose packets (and whose predecessor's packets) all arrive in order is returned intact exactly once, no later than the first packet of the following frame",
-					"resync", fmt.Sprintf("frame %d (arrival positions %d..%d) returned %d times in that window; faults %v", fi, firstPos[fi], lastPos[fi], hits, in.Faults))
+					"resync", fmt.Sprintf("frame %d (arrival positions %d..%d) returned %d times in that window; returned later: %s; next frame intact: %v; faults %v", fi, firstPos[fi], lastPos[fi], hits, later, nextIntact, in.Faults))
 			}
 		}
 	}
